@@ -40,6 +40,9 @@ pub fn body(sc: Arc<Value>) {
     // Like the benchmark loop: one result buffer, cleared and refilled by
     // every broadcast.
     let reuse = sc.get("reuse_vec").and_then(|u| u.as_bool()).unwrap_or(false);
+    // Extend.tla's other use: the buffer is NOT cleared, par_extend appends
+    // (per broadcast: `"append": true`); the entries that were there before
+    // must stay as they were and only the new tail is reported.
     let mut shared: Vec<Option<usize>> = Vec::new();
 
     for bc in sc["history"].as_array().cloned().unwrap_or_default() {
@@ -65,16 +68,23 @@ pub fn body(sc: Arc<Value>) {
             flags.iter().map(|f| f.load(Ordering::Relaxed)).collect()
         } else {
             let mut fresh: Vec<Option<usize>> = Vec::new();
+            let append = bc["append"].as_bool().unwrap_or(false);
             let v: &mut Vec<Option<usize>> = if reuse {
-                shared.clear();
+                if !append {
+                    shared.clear();
+                }
                 &mut shared
             } else {
                 &mut fresh
             };
+            let before: Vec<Option<usize>> = v.clone();
             pool.par_extend(v, n, |i| task(i, &panics, bomb0));
+            let earlier_kept = v.len() == before.len() + n + 1 && v[..before.len()] == before[..];
             v.iter()
+                .skip(if earlier_kept { before.len() } else { 0 })
                 .enumerate()
                 .map(|(i, x)| match x {
+                    _ if !earlier_kept => 2,
                     Some(r) if *r == i => 1,
                     Some(_) => 2,
                     None => 0,
